@@ -69,4 +69,17 @@ inline void array_member_templates()
 	(void)ai.with<double>();
 	(void)ad;
 }
+
+// member templates of Var that take typed containers
+inline void var_member_templates()
+{
+	asl::Array<int> ai;
+	asl::Array<asl::String> as;
+	asl::Dic<int> di;
+	asl::Var v(ai), w(as), x(di);
+	v = ai;
+	w = as;
+	x = di;
+	(void)v; (void)w; (void)x;
+}
 }
